@@ -50,14 +50,15 @@ Proof. exact C16_rename_remove_proof. Qed.
 Print Assumptions C16_rename_remove.
 
 (* (c) after an Ok mount of n: for every layer of the chain, C16.link_ok holds for both links.
-   Full statement (false, see C16_after_mount_refuted_1 and _2): the same without chain_simple.
-   chain_simple: every export directive of every chain layer names exactly "$$package_export"
-   or "$$file_export", each at most once per layer.
+   Full statement (false of the model, see C16_after_mount_refuted): the same without chain_own.
+   chain_own: every expanded export directive of every chain layer targets one of that
+   layer's own two links -- spelled $$package_export / $$file_export or written out, any
+   number of directives per link.
    cfg_ok_mount: the two export sub-directories are distinct plain names; the per-layer
    packages / generated directories are relative paths of plain components. *)
 Theorem C16_after_mount_partial : forall cfg w e n um,
   plain_env e = true -> cfg_ok cfg = true -> cfg_ok_mount cfg = true ->
-  chain_simple cfg (wo_fs w) n = true ->
+  chain_own cfg (wo_fs w) n = true ->
   v_res (view_of_model cfg w e (CMount n) um) = ROk ->
   mount_spec cfg n (wo_fs w) (wo_fs (v_after (view_of_model cfg w e (CMount n) um))) = true.
 Proof. exact C16_after_mount_partial_proof. Qed.
@@ -70,23 +71,13 @@ Theorem C16_model_partial : forall cfg w e cmd um,
 Proof. exact C16_model_partial_proof. Qed.
 Print Assumptions C16_model_partial.
 
-(* (c) without chain_simple is false of the model: closed witnesses *)
-Theorem C16_after_mount_refuted_1 :
-  plain_env e0 = true /\ cfg_ok ex_cfg = true /\ cfg_ok_mount ex_cfg = true /\ world_ok ex_cfg (w1 conf_dup) = true
-  /\ mount_ok ex_cfg (w1 conf_dup) (CMount (bs "a")) = false
-  /\ v_res (v1 conf_dup (CMount (bs "a"))) = ROk
-  /\ readlink (wo_fs (v_after (v1 conf_dup (CMount (bs "a"))))) (bs "/b/export/packages/a")
-     = Some (bs "/b/layers/a/build/p2")
-  /\ C16.step_spec ex_cfg (w1 conf_dup) (v1 conf_dup (CMount (bs "a"))) = false.
-Proof. exact C16_after_mount_refuted_dup. Qed.
-Print Assumptions C16_after_mount_refuted_1.
-
-Theorem C16_after_mount_refuted_2 :
-  plain_env e0 = true /\ cfg_ok ex_cfg = true /\ cfg_ok_mount ex_cfg = true /\ world_ok ex_cfg (w1 conf_abs) = true
-  /\ mount_ok ex_cfg (w1 conf_abs) (CMount (bs "a")) = false
-  /\ v_res (v1 conf_abs (CMount (bs "a"))) = ROk
-  /\ readlink (wo_fs (v_after (v1 conf_abs (CMount (bs "a"))))) (bs "/b/export/packages/a")
-     = Some (bs "/b/layers/a/build/p1")
-  /\ C16.step_spec ex_cfg (w1 conf_abs) (v1 conf_abs (CMount (bs "a"))) = false.
-Proof. exact C16_after_mount_refuted_abs. Qed.
-Print Assumptions C16_after_mount_refuted_2.
+(* (c) without chain_own is false of the model: closed witness (a directive targeting the
+   parent directory of the link; the model's textual remove_all below a symlink entry) *)
+Theorem C16_after_mount_refuted :
+  plain_env e0 = true /\ cfg_ok ex_cfg = true /\ cfg_ok_mount ex_cfg = true /\ world_ok ex_cfg (w3 conf_par) = true
+  /\ mount_ok ex_cfg (w3 conf_par) (CMount (bs "a")) = false
+  /\ v_res v3 = ROk /\ length (v_log v3) = 4%nat
+  /\ exists_ (wo_fs (v_after v3)) (bs "/b/export/packages/a") = false
+  /\ C16.step_spec ex_cfg (w3 conf_par) v3 = false.
+Proof. exact C16_after_mount_refuted_foreign_target. Qed.
+Print Assumptions C16_after_mount_refuted.
